@@ -884,7 +884,7 @@ func fixedTableLayout(box *bo.BoxFields) {
 				}
 			}
 			if len(columnsWithoutWidth) != 0 {
-				widthPerColumn := width / pr.Float(len(columnsWithoutWidth))
+				widthPerColumn := pr.Max(0, width/pr.Float(len(columnsWithoutWidth)))
 				for _, j := range columnsWithoutWidth {
 					columnWidths[j] = widthPerColumn
 				}
